@@ -133,6 +133,9 @@ type c12Case struct {
 	ReadEachStep bool `json:"getters_read_after_every_update,omitempty"`
 	// Table: 0 = the general include table, 1 = the "fan" world, 2 = the "graph root" world
 	Table int `json:"world_table,omitempty"`
+	// Absent: this file (index > 0) does not exist when the workspace is
+	// initialised, although a member names it; its first update creates it
+	Absent int `json:"absent_at_start,omitempty"`
 }
 
 // canonical view of a workspace
@@ -279,6 +282,11 @@ func c12Run(dir string, cs c12Case) (live, fresh c12View, liveW *workspace.Works
 func c12RunMode(dir string, cs c12Case, readEachStep bool) (live, fresh c12View, liveW *workspace.Workspace, disk []int) {
 	disk = make([]int, cs.NFiles)
 	for i := 0; i < cs.NFiles; i++ {
+		if cs.Absent > 0 && i == cs.Absent {
+			_ = os.Remove(filepath.Join(dir, c12NameT(cs.Table, i)))
+			disk[i] = -1
+			continue
+		}
 		_ = os.WriteFile(filepath.Join(dir, c12NameT(cs.Table, i)), []byte(c12ContentT(cs.Table, cs.NFiles, i, 0)), 0o644)
 	}
 	liveW = workspace.NewWorkspace(dir, include.NewLoader())
@@ -447,11 +455,11 @@ func checkC12(c *core.Ctx) {
 		c12Compare(c, dir, cs, live, fresh, disk)
 		return
 	}
-	type world struct{ nfiles, nvar, table int }
-	worlds := []world{{2, 3, 0}, {3, 3, 0}, {4, 3, 0}, {4, 3, 1}, {4, 3, 2}}
+	type world struct{ nfiles, nvar, table, absent int }
+	worlds := []world{{2, 3, 0, 0}, {3, 3, 0, 0}, {4, 3, 0, 0}, {4, 3, 1, 0}, {4, 3, 2, 0}, {3, 3, 0, 1}, {4, 3, 0, 2}}
 	depth := 6
 	if c.Thorough() {
-		worlds = []world{{2, 4, 0}, {3, 4, 0}, {4, 4, 0}, {5, 4, 0}, {4, 3, 1}, {4, 3, 2}}
+		worlds = []world{{2, 4, 0, 0}, {3, 4, 0, 0}, {4, 4, 0, 0}, {5, 4, 0, 0}, {4, 3, 1, 0}, {4, 3, 2, 0}, {3, 4, 0, 1}, {4, 4, 0, 1}, {4, 4, 0, 2}}
 		depth = 8
 	}
 	sampled := 0
@@ -469,7 +477,7 @@ func checkC12(c *core.Ctx) {
 			if c.NShards > 1 && path[0]%c.NShards != c.Shard {
 				return "", false
 			}
-			cs := c12Case{NFiles: w.nfiles, NVariant: w.nvar, Table: w.table}
+			cs := c12Case{NFiles: w.nfiles, NVariant: w.nvar, Table: w.table, Absent: w.absent}
 			for _, p := range path {
 				cs.Ops = append(cs.Ops, ops[p])
 			}
@@ -500,7 +508,7 @@ func checkC12(c *core.Ctx) {
 		c.Res.States += st.States
 		c.Res.Transitions += st.Transitions
 		c.Res.Traces += st.Transitions
-		c.Bound(fmt.Sprintf("world %d files x %d variants, include table %d", w.nfiles, w.nvar, w.table), fmt.Sprintf("all update sequences up to depth %d, sharded by first update", depth))
+		c.Bound(fmt.Sprintf("world %d files x %d variants, include table %d, file absent at initialisation: %d (0 = none)", w.nfiles, w.nvar, w.table, w.absent), fmt.Sprintf("all update sequences up to depth %d, sharded by first update", depth))
 		c.Count(fmt.Sprintf("states_%dfiles", w.nfiles), st.States)
 		c.Count(fmt.Sprintf("transitions_%dfiles", w.nfiles), st.Transitions)
 		if st.Exhausted {
